@@ -6,10 +6,13 @@ import (
 	"context"
 	"errors"
 	"fmt"
+	"net"
+	"os"
 	"io"
 	"net/netip"
 	"runtime"
 	"strings"
+	"syscall"
 	"sync"
 	"sync/atomic"
 	"testing"
@@ -86,6 +89,7 @@ type epDialer struct {
 	mu    sync.Mutex
 	dials int
 	fail  bool
+	script []string     // outcomes of the next dial attempts ("unreach" | "fail" | "ok"); then `fail` decides
 	gate  chan struct{} // non-nil: the dial waits here (slow dial)
 	conns []*epConn
 }
@@ -94,6 +98,15 @@ func (d *epDialer) DialContext(ctx context.Context, network, addr string) (netpr
 	d.mu.Lock()
 	d.dials++
 	fail, gate := d.fail, d.gate
+	if len(d.script) > 0 {
+		step := d.script[0]
+		d.script = d.script[1:]
+		if step == "unreach" {
+			d.mu.Unlock()
+			return nil, &net.OpError{Op: "dial", Net: network, Err: os.NewSyscallError("connect", syscall.ENETUNREACH)}
+		}
+		fail = step == "fail"
+	}
 	d.mu.Unlock()
 	if gate != nil {
 		<-gate
@@ -195,6 +208,12 @@ func epRunOne(b *epBehaviour, res *verifutil.Result) {
 			o, _ := ev.X.(string)
 			nd.mu.Lock()
 			nd.fail = ev.Res == "dial-error"
+			nd.script = map[string][]string{"new-after-retry": {"unreach", "ok"}, "dial-error-after-retry": {"unreach", "fail"}}[ev.Res]
+			retried := strings.HasSuffix(ev.Res, "-after-retry")
+			ev.Res = strings.TrimSuffix(ev.Res, "-after-retry")
+			if retried {
+				trail = append(trail, "(next dial: network unreachable on the first attempt, then "+map[string]string{"new": "success", "dial-error": "an ordinary failure"}[ev.Res]+")")
+			}
 			before := len(nd.conns)
 			nd.mu.Unlock()
 			trail = append(trail, fmt.Sprintf("get(%s by %s)", ev.K, o))
